@@ -134,6 +134,8 @@ pub enum HOp {
     SetUnsafe(bool),
     /// the mutator list replaced through the pub field
     SetMutators(Vec<u8>),
+    /// the protocol of a used generator changed through the pub field `state.version`
+    SetProtocol(u8),
 }
 
 impl HOp {
@@ -145,6 +147,7 @@ impl HOp {
             HOp::SetRate(r) => json!({"op": "set_rate", "rate_bits": format!("{:016x}", r.to_bits())}),
             HOp::SetFlags(e, b) => json!({"op": "set_flags", "allow_ext": e, "allow_buffer": b}),
             HOp::SetUnsafe(u) => json!({"op": "set_unsafe", "unsafe": u}),
+            HOp::SetProtocol(p) => json!({"op": "set_protocol", "protocol": p}),
             HOp::SetMutators(m) => json!({"op": "set_mutators", "mutators": m.iter().map(|&k| MUT_NAMES[k as usize]).collect::<Vec<_>>()}),
         }
     }
@@ -161,6 +164,7 @@ impl HOp {
             ))),
             Some("set_flags") => Ok(HOp::SetFlags(v["allow_ext"].as_bool().unwrap_or(false), v["allow_buffer"].as_bool().unwrap_or(false))),
             Some("set_unsafe") => Ok(HOp::SetUnsafe(v["unsafe"].as_bool().unwrap_or(false))),
+            Some("set_protocol") => Ok(HOp::SetProtocol(v["protocol"].as_u64().ok_or("protocol")?.min(5) as u8)),
             Some("set_mutators") => Ok(HOp::SetMutators(
                 v["mutators"]
                     .as_array()
